@@ -107,6 +107,8 @@ def run(rep: Report, ctx: Any) -> str:
                       "fixpoint on a growing set, structural recursion")
     rep.rule("R06.5", "handle_errors raises typer.Exit(1) iff an error-level diagnostic exists or fail_on_warning; a rejected "
                       "document returns before any filesystem effect")
+    rep.rule("R06.6", "diagnostics survive to the caller: a function that records error values on objects it keeps in a local table "
+                      "returns that table itself, never a filtered or rebuilt copy (an object dropped from it takes its diagnostics along)")
     rep.assumptions += [
         "exceptions raised inside third-party code on unusual values (pydantic, ruamel, jinja internals, RecursionError on "
         "pathologically deep documents) and hangs inside them are not decided",
@@ -274,6 +276,7 @@ def run(rep: Report, ctx: Any) -> str:
 
     # ------------------------------------------------------------------------------------------------- R06.5
     _exit_status(rep, ctx, cfgs)
+    _diagnostics_returned(rep, ctx)
     return LEVEL
 
 
@@ -548,44 +551,70 @@ def _cycle_pattern(ix: Any, it: Any, comp: list[str]) -> str | None:
 def _exit_status(rep: Report, ctx: Any, cfgs: dict[str, CFG]) -> None:
     ix = ctx.py
     he = ix.func("cli.handle_errors")
-    cfg = cfg_of(he, cfgs)
-    raises = [s for s in cfg.stmts() if isinstance(s, ast.Raise) and "Exit" in norm(s)]
-    rep.require(raises, "raise typer.Exit in handle_errors")
-    r = raises[-1]
-    # the guard of the raise: error level or fail_on_warning
-    guard = None
-    for n in ast.walk(he.node):
-        if isinstance(n, ast.If) and any(x is r for x in ast.walk(n)):
-            guard = n
-    # the level variable (any spelling): the local compared with ErrorLevel.ERROR in the guard of the raise
-    lvl = set()
-    if guard is not None and isinstance(guard.test, ast.BoolOp) and isinstance(guard.test.op, ast.Or):
-        for v in guard.test.values:
-            if isinstance(v, ast.Compare) and isinstance(v.ops[0], ast.Eq) and norm(v.comparators[0]) == "ErrorLevel.ERROR" and isinstance(v.left, ast.Name):
-                lvl.add(v.left.id)
-    ok = guard is not None and bool(lvl) and isinstance(guard.test, ast.BoolOp) and isinstance(guard.test.op, ast.Or) and \
-        {norm(v) for v in guard.test.values} == {f"{next(iter(lvl))} == ErrorLevel.ERROR", "fail_on_warning"} and "code=1" in norm(r)
-    rep.check(ok, "R06.5", "cli.handle_errors::exit-guard", "typer.Exit(code=1) is not guarded by `error_level == ERROR or fail_on_warning`",
-              where(he, r), lhs=norm(guard.test) if guard is not None else None, rhs="error_level == ErrorLevel.ERROR or fail_on_warning")
-    # the level becomes ERROR iff some error has level ERROR: set under `if <e>.level == ErrorLevel.ERROR` in a loop `for <e> in errors`
-    sets = [n for n in ast.walk(he.node) if isinstance(n, ast.Assign) and norm(n.targets[0]) in lvl and norm(n.value) == "ErrorLevel.ERROR"]
-    ok2 = False
-    for lp in [n for n in ast.walk(he.node) if isinstance(n, ast.For) and norm(n.iter) == "errors"]:
-        ev = norm(lp.target)
-        for p_ in lp.body:
-            if isinstance(p_, ast.If) and norm(p_.test) == f"{ev}.level == ErrorLevel.ERROR" and any(x in sets for x in p_.body):
-                ok2 = True
-    others = [n for n in ast.walk(he.node) if isinstance(n, ast.Assign) and norm(n.targets[0]) in lvl and n not in sets]
-    ok2 = ok2 and all(norm(o.value) == "ErrorLevel.WARNING" and o in he.node.body for o in others)
-    rep.check(ok2, "R06.5", "cli.handle_errors::level-scan", "error_level is not derived from `error.level == ErrorLevel.ERROR` over all errors",
-              where(he, he.node), lhs=[norm(s) for s in sets], rhs="set under `if error.level == ErrorLevel.ERROR` inside the loop over errors")
-    # early `return` only when there are no errors
-    early = [s for s in cfg.stmts() if isinstance(s, ast.Return)]
-    for s in early:
-        par = [p for p in ast.walk(he.node) if isinstance(p, ast.If) and s in p.body]
-        ok3 = bool(par) and "len(errors) == 0" in norm(par[0].test)
-        rep.check(ok3, "R06.5", "cli.handle_errors::early-return", "handle_errors returns early under a condition other than `no errors`",
-                  where(he, s), lhs=norm(par[0].test) if par else None, rhs="len(errors) == 0")
+    # Decided on outcomes, not on the shape of the code: for each combination of (some diagnostic has level ERROR, fail_on_warning)
+    # the statements that can end the function are enumerated; `raise typer.Exit(code=1)` must end it exactly when one of the two holds.
+    from ..astutil import Locals, terminals
+
+    exits = [s for s in ast.walk(he.node) if isinstance(s, ast.Raise) and s.exc is not None and "Exit" in norm(s.exc) and "code=1" in norm(s.exc)]
+    rep.require(exits, "raise typer.Exit(code=1) in handle_errors")
+    lc = Locals(he.node)
+
+    def scans_levels(e: ast.AST) -> bool:
+        """any(<x>.level == ErrorLevel.ERROR for <x> in errors)"""
+        if not (isinstance(e, ast.Call) and call_name(e) == "any" and len(e.args) == 1 and isinstance(e.args[0], (ast.GeneratorExp, ast.ListComp))):
+            return False
+        g_ = e.args[0]
+        return len(g_.generators) == 1 and not g_.generators[0].ifs and norm(g_.generators[0].iter) == "errors" and \
+            norm(g_.elt) == f"{norm(g_.generators[0].target)}.level == ErrorLevel.ERROR"
+
+    has_error: set[str] = {norm(n) for n in ast.walk(he.node) if scans_levels(n)}
+    has_error |= {nm for nm in lc.defs if lc.values_of(nm) and all(scans_levels(v) for v in lc.values_of(nm))}
+    # a level variable: WARNING at the top level, ERROR only under `if <e>.level == ErrorLevel.ERROR` inside `for <e> in errors`
+    for nm in lc.defs:
+        vals = [norm(v) for v in lc.values_of(nm)]
+        if not vals or set(vals) - {"ErrorLevel.WARNING", "ErrorLevel.ERROR"} or "ErrorLevel.ERROR" not in vals:
+            continue
+        ok_l = True
+        for a in [n for n in ast.walk(he.node) if isinstance(n, ast.Assign) and norm(n.targets[0]) == nm]:
+            if norm(a.value) == "ErrorLevel.WARNING":
+                ok_l = ok_l and a in he.node.body
+            else:
+                ok_l = ok_l and any(isinstance(lp, ast.For) and norm(lp.iter) == "errors" and any(
+                    isinstance(i_, ast.If) and norm(i_.test) == f"{norm(lp.target)}.level == ErrorLevel.ERROR" and a in i_.body for i_ in lp.body)
+                    for lp in ast.walk(he.node))
+        if ok_l:
+            has_error |= {f"{nm} == ErrorLevel.ERROR", f"{nm} is ErrorLevel.ERROR"}
+    rep.check(bool(has_error), "R06.5", "cli.handle_errors::level-scan",
+              "nothing in handle_errors is derived from `error.level == ErrorLevel.ERROR` over all errors", where(he, he.node),
+              lhs=sorted(has_error), rhs="any(e.level == ERROR for e in errors) or a level variable raised inside the loop over errors")
+    empty = {"len(errors) == 0", "not errors", "errors == []"}
+    bad_combo = None
+    for h in (False, True):
+        for f_ in (False, True):
+            def ev(t: ast.expr, h: bool = h, f_: bool = f_) -> bool | None:
+                txt = norm(t)
+                if txt in has_error:
+                    return h
+                if txt == "fail_on_warning":
+                    return f_
+                if txt in empty:
+                    return False
+                return None
+
+            terms, falls = terminals(he.node.body, ev)
+            hit = [t for t in terms if t in exits]
+            must = h or f_
+            if must and (falls or len(hit) != len(terms)):
+                bad_combo = bad_combo or f"error={h}, fail_on_warning={f_}: the function can end without exit status 1"
+            if not must and hit:
+                bad_combo = bad_combo or f"error={h}, fail_on_warning={f_}: exit status 1 although nothing calls for it"
+    rep.check(bad_combo is None and bool(has_error), "R06.5", "cli.handle_errors::exit-guard",
+              f"typer.Exit(code=1) is not raised exactly when an error-level diagnostic exists or fail_on_warning ({bad_combo})",
+              where(he, exits[-1]), lhs=bad_combo, rhs="exit 1 iff (some error has level ERROR) or fail_on_warning")
+    # with no diagnostics at all the function ends without an exit status
+    terms0, _ = terminals(he.node.body, lambda t: True if norm(t) in empty else None)
+    rep.check(not [t for t in terms0 if t in exits], "R06.5", "cli.handle_errors::early-return",
+              "handle_errors can exit with status 1 although there are no diagnostics", where(he, he.node))
     # cli.generate hands the result of generate() to handle_errors with fail_on_warning
     g = ix.func("cli.generate")
     from ..astutil import Locals
@@ -624,3 +653,42 @@ def _exit_status(rep: Report, ctx: Any, cfgs: dict[str, CFG]) -> None:
     guard_ok = bool(builds) and bool(rets) and all(cfg_g.is_dominated_by(b, _reject) for b in builds)
     rep.check(guard_ok, "R06.5", "generate::reject-before-build", "project.build() is reachable for a rejected document",
               where(gen, gen.node), lhs=[norm(b) for b in builds], rhs="dominated by `if isinstance(project, GeneratorError): return [project]`")
+
+
+def _diagnostics_returned(rep: Report, ctx: Any) -> None:
+    """R06.6.  Instances: parser functions with a local dict filled by `setdefault` (objects grouped by a key) in which error values
+    are appended to a list attribute of those objects.  Obligation: the dict is bound once (to an empty dict) and every return that
+    is not itself an error hands back the dict's own name."""
+    from ..astutil import Locals, constructs_error, error_names, receivers
+    from .registries import local_registries
+
+    ix = ctx.py
+    n_inst = 0
+    for f in ix.all_functions:
+        if not f.module.name.startswith(f"{PKG}.parser"):
+            continue
+        tables = {nm for nm, kind in local_registries(f).items() if kind == "dict"
+                  and any(r == nm for r, _ in receivers(f.node, "setdefault"))}
+        if not tables:
+            continue
+        errs = error_names(f.node)
+        # objects taken out of the table: locals bound from expressions that mention <table>.setdefault(...)
+        lc = Locals(f.node)
+        for tb in sorted(tables):
+            holders = set(lc.bound_from(lambda v, tb=tb: f"{tb}.setdefault(" in v, ""))
+            members = {norm(lp.target) for lp in ast.walk(f.node) if isinstance(lp, ast.For) and norm(lp.iter) in holders} | holders
+            records = [c for r, c in receivers(f.node, "append") if "." in r and r.split(".", 1)[0] in members and c.args and
+                       (constructs_error(c.args[0]) or (isinstance(c.args[0], ast.Name) and c.args[0].id in errs))]
+            if not records:
+                continue
+            n_inst += 1
+            defs = [norm(v) for v in lc.values_of(tb)]
+            rets = [r for r in ast.walk(f.node) if isinstance(r, ast.Return) and r.value is not None]
+            firsts = [norm(r.value.elts[0]) if isinstance(r.value, ast.Tuple) and r.value.elts else norm(r.value) for r in rets]
+            ok = defs in (["{}"], ["dict()"]) and bool(rets) and all(x == tb for x in firsts)
+            rep.check(ok, "R06.6", f"{short(f)}::returns-the-table-with-its-diagnostics",
+                      "objects that carry recorded diagnostics are kept in a local table, but what is returned is not that table itself "
+                      f"(bound from {defs}, returned as {sorted(set(firsts))}): an object filtered out takes its diagnostics along and "
+                      "the failure is reported nowhere", where(f, rets[-1] if rets else f.node), lhs=[defs, sorted(set(firsts))],
+                      rhs=f"`{tb}` bound once to an empty dict and returned by name")
+    rep.floor("diagnostic_tables", n_inst, 1)
